@@ -156,6 +156,18 @@ func init() {
 func init() {
 	c := fw.Lookup("C10")
 	c.Phases = append(c.Phases, sqlExtraPhases(evalC10, false)...)
+	// every base costs up to a few hundred case variants here: keep the two largest families lighter
+	for i := range c.Phases {
+		switch c.Phases[i].Name {
+		case "count-sweep":
+			c.Phases[i].ThoroughOnly = true
+		case "trie-rewritten-words":
+			c.Phases[i].Space = "{1 ) ( not in like = + foo select}^<=5 (quick) / <=6 (thorough) x case assignments"
+			c.Phases[i].Run = func(w *fw.W) {
+				w.Trie([]string{"1 ", ") ", "( ", "not ", "in ", "like ", "= ", "+ ", "foo ", "select "}, 4, w.Pick(5, 6))
+			}
+		}
+	}
 }
 
 var c10Templates = []string{"1 or W()", "1 or W(1)", "1; W(1)", "1; W 1=1", "1 union select W()", "@W(1)", "1 W 1", "1 W (1)", "1 or 1 W (1)", "select W from x", "1 W outfile 'x'", "x' W outfile 'y", "1 or W", "1 or W=1 --", "1 and @W()=1", "1 union select @W()", "1 union W 1", "1 union all W\xff 1"}
